@@ -377,6 +377,86 @@ impl NodeState {
 
 } // impl NodeState
 
+// ------------------------------------------------------------------ restart: Channel::restore_payments
+// C06 speaks about "the restarts in between": a restart rebuilds the ledger from the channels' current commitments
+// (Node::new_from_persistence calls restore_payments for every ready channel: unit node_restore_channels).  What
+// restore_payments reads of the channel: its node-assigned id and the two payment summaries of the current commitments.
+pub struct VxChanR { pub id0: ChannelId, pub enforcement_state: VxEsR, pub rest: VxChanRRest }
+#[verifier::external_body] pub struct VxChanRRest { _p: u8 }
+#[verifier::external_body] pub struct VxEsR { _p: u8 }
+#[verifier::external_body] pub struct VxNodeR { _p: u8 }
+impl VxEsR {
+    // EnforcementState::{incoming_payments_summary, payments_summary}(None, None): the summaries of the current
+    // commitments (proved against their definition in unit pay_summary)
+    pub uninterp spec fn cur_in(&self) -> Map<PaymentHash, u64>;
+    pub uninterp spec fn cur_out(&self) -> Map<PaymentHash, u64>;
+    #[verifier::external_body]
+    pub fn incoming_payments_summary(&self, a: Option<&CommitmentInfo2>, b: Option<&CommitmentInfo2>) -> (r: VxPayMap)
+        ensures a.is_none() && b.is_none() ==> r@ == self.cur_in() { unimplemented!() }
+    #[verifier::external_body]
+    pub fn payments_summary(&self, a: Option<&CommitmentInfo2>, b: Option<&CommitmentInfo2>) -> (r: VxPayMap)
+        ensures a.is_none() && b.is_none() ==> r@ == self.cur_out() { unimplemented!() }
+}
+impl VxNodeR {
+    pub uninterp spec fn state_spec(&self) -> NodeState;          // the node state when the lock is taken
+    #[verifier::external_body]
+    pub fn get_state(&self) -> (r: NodeState) ensures r == self.state_spec() { unimplemented!() }
+}
+impl VxChanR {
+    pub uninterp spec fn node_spec(&self) -> VxNodeR;
+    #[verifier::external_body]
+    pub fn get_node(&self) -> (r: VxNodeR) ensures r == self.node_spec() { unimplemented!() }
+    // the two iterator chains that pick the smallest incoming / largest outgoing CLTV of the hash (CLTV bookkeeping is not
+    // part of C06's amounts): unspecified
+    #[verifier::external_body]
+    pub fn vx_cltv_bounds(&self, hash: &PaymentHash) -> (Option<u32>, Option<u32>) { unimplemented!() }
+
+//@fn vls-core/src/channel.rs :: impl Channel :: restore_payments props=C06 optclosures
+//@sub /for hash in hashes \{/ => let vx_hs = hashes.vx_elems(); for hash in vx_hs.iter() {
+//@sub /let payment = state\.payments\.entry\(\*hash\)\.or_insert_with\(\|\| RoutedPayment::new\(\)\);/ => state.payments.vx_ensure(*hash); let payment = state.payments.vx_get_mut(hash);
+//@sub /(?s)let min_incoming_cltv = self\s*\.enforcement_state.*?\}\);\s*let max_outgoing_cltv = self\s*\.enforcement_state.*?\}\);/ => let (min_incoming_cltv, max_outgoing_cltv) = self.vx_cltv_bounds(hash);
+//@proof before /let vx_hs = hashes\.vx_elems\(\);/
+        let ghost p0 = state.payments@;
+        let ghost inv0 = state.invoices;
+        let ghost ins = incoming_payment_summary@;
+        let ghost outs = outgoing_payment_summary@;
+        let ghost mut done = Set::<PaymentHash>::empty();
+        proof {
+            assert forall|h: PaymentHash| (ins.contains_key(h) || outs.contains_key(h)) <==> #[trigger] hashes@.contains(h) by { }
+        }
+//@loop 1 iter=it
+        invariant
+            state.invoices == inv0, ins == incoming_payment_summary@, outs == outgoing_payment_summary@,
+            forall|i: int| 0 <= i < vx_hs@.len() ==> ins.contains_key(#[trigger] vx_hs@[i]) || outs.contains_key(vx_hs@[i]),
+            forall|i: int, j: int| 0 <= i < vx_hs@.len() && 0 <= j < vx_hs@.len() && i != j ==> #[trigger] vx_hs@[i] != #[trigger] vx_hs@[j],
+            forall|j: int| 0 <= j < it.index@ ==> done.contains(#[trigger] vx_hs@[j]),
+            forall|j: int| it.index@ <= j < vx_hs@.len() ==> !done.contains(#[trigger] vx_hs@[j]),
+            forall|h: PaymentHash| #[trigger] done.contains(h) ==> recorded(state.payments@, p0, self.id0, ins, outs, h),
+            forall|h: PaymentHash| #[trigger] done.contains(h) ==> ins.contains_key(h) || outs.contains_key(h),
+            forall|h: PaymentHash| !done.contains(h) ==> (#[trigger] state.payments@.contains_key(h) <==> p0.contains_key(h)),
+            forall|h: PaymentHash| !done.contains(h) && #[trigger] p0.contains_key(h) ==> state.payments@[h] == p0[h],
+//@proof blockend /payment\.apply\(/
+            proof { done = done.insert(*hash); }
+//@proof blockend /let node = self\.get_node\(\);/
+        proof {
+            // C06 across restarts: for every hash in flight on this channel the ledger holds exactly the amounts of the
+            // channel's current commitments under this channel's id; other hashes and the approved invoices are untouched
+            assert forall|h: PaymentHash| ins.contains_key(h) || outs.contains_key(h) implies                     //[C06.restore-payments.records-current-summaries]
+                #[trigger] recorded(state.payments@, p0, self.id0, ins, outs, h) by {
+                assert(hashes@.contains(h));
+                let j = choose|j: int| 0 <= j < vx_hs@.len() && #[trigger] vx_hs@[j] == h;
+                assert(done.contains(vx_hs@[j]));
+            }
+            assert forall|h: PaymentHash| !(ins.contains_key(h) || outs.contains_key(h)) implies                   //[C06.restore-payments.other-hashes-untouched]
+                (#[trigger] state.payments@.contains_key(h) <==> p0.contains_key(h)) && (p0.contains_key(h) ==> state.payments@[h] == p0[h]) by {
+                if done.contains(h) { }
+            }
+            assert(state.invoices == inv0);
+            assert(ins == self.enforcement_state.cur_in() && outs == self.enforcement_state.cur_out());          //[C06.restore-payments.uses-current-commitments]
+        }
+//@end
+}
+
 // ------------------------------------------------------------------ approving payments: Node::add_keysend / add_invoice
 // the part of Node these functions touch (sequential mutex model, R11): the node state behind its lock, the clock, the
 // policy and the persister (ghost: the last node state handed to Persist::update_node)
